@@ -32,7 +32,7 @@ void harness_rewind_inner(void) {
     for (i = 0; i < RINGS; i++) rsizes[i] = (i < RINGS - 1) ? 4 : RSLAST;
     for (i = 0; i < NPUB; i++) { __CPROVER_assume(!secp256k1_scalar_check_overflow(&in.ev[i]) && !secp256k1_scalar_check_overflow(&in.s[i])); }
     __CPROVER_assume(mlen <= 128 * RINGS + 8);
-    m = malloc(mlen ? mlen : 1); __CPROVER_assume(m != NULL);                 /* the caller's message buffer: an object of exactly *mlen bytes */
+    m = malloc(mlen); __CPROVER_assume(m != NULL);                 /* the caller's message buffer: an object of exactly *mlen bytes */
     r = secp256k1_rangeproof_rewind_inner(secp256k1_get_hash_context(&ctx), &blind, &v, in.nullm ? NULL : m, in.nullmlen ? NULL : &mlen, in.ev, in.s, rsizes, RINGS, in.nonce, &in.commit, in.proof, 10, &in.gen);
     __CPROVER_assert(r == 0 || r == 1, "boolean");
     if (!in.nullmlen) __CPROVER_assert(mlen <= in.mlen, "the recovered message length never exceeds the caller's buffer length");
